@@ -47,6 +47,7 @@ impl C02 {
     pub fn judge(d: &[u8], label: &str, r: &mut Rng, ctx: &mut Ctx, corrupt: bool) -> bool {
         ctx.item_bytes(label, d);
         ctx.count("evaluations");
+        ctx.phase("nonverdict: analysis (totality of the analysis is C05's verdict)");
         let rf = cur::analyze(d, false);
         let rt = cur::analyze(d, true);
         ctx.count(&format!("analyze(verify=false):{}", rf.kind()));
@@ -113,6 +114,7 @@ impl C02 {
                 );
                 continue;
             }
+            ctx.phase("verdict: reconstruction of an accepted stream");
             let mut rec = cur::reconstruct(&a.plain, &a.corr);
             if corrupt {
                 if let Out::Ok(v) = &mut rec {
@@ -183,6 +185,7 @@ impl C02 {
             }
             for (how, v) in variants {
                 let verify = r.chance(1, 4);
+                ctx.phase("nonverdict: analysis of a suffix variant");
                 let r2 = cur::analyze(&v, verify);
                 ctx.count("suffix_variants");
                 match &r2 {
